@@ -28,11 +28,11 @@ def stub_ifmr(wd_up, bh_lo, ns=1.4):
 _real = {}
 
 
-def real_ifmr(feh):
+def real_ifmr(feh, ns=1.4):
     from ssptools.ifmr import IFMR
-    if feh not in _real:
-        _real[feh] = IFMR(feh)
-    return _real[feh]
+    if (feh, ns) not in _real:
+        _real[(feh, ns)] = IFMR(feh) if ns == 1.4 else IFMR(feh, NS_mass=ns)
+    return _real[(feh, ns)]
 
 
 def gen_layout(rng):
@@ -64,6 +64,8 @@ def gen_layout(rng):
     else:
         ifm = ("stub", rng.choice([1.0, 1.2, 1.38]) + rng.random() * 0.3, rng.choice([2.5, 5.0, 5.5, 8.0]) + rng.random())
     lay = dict(breaks=breaks, nbins=nb, method=method, ifmr=ifm, form=form)
+    if form in ("dict_list", "dict_int") and rng.random() < 0.4:
+        lay["ns_mass"] = rng.choice([1.25, 1.6, 2.0, 1.41])        # an IFMR with another neutron-star mass (remnant bins requested explicitly)
     if rng.random() < 0.5:
         # the IMF object handed to MassBins is independent of the binning breaks (documented: the IMF's breaks are not used to set up the bins):
         # another number of components over the same range
@@ -86,7 +88,8 @@ def gen_layout(rng):
 
 def build(lay):
     from ssptools.masses import MassBins, PowerLawIMF
-    ifm = real_ifmr(lay["ifmr"][1]) if lay["ifmr"][0] == "real" else stub_ifmr(lay["ifmr"][1], lay["ifmr"][2])
+    ns_ = lay.get("ns_mass", 1.4)
+    ifm = real_ifmr(lay["ifmr"][1], ns_) if lay["ifmr"][0] == "real" else stub_ifmr(lay["ifmr"][1], lay["ifmr"][2], ns=ns_)
     b = lay["breaks"]
     nc = lay.get("imf_comps")
     if nc:
@@ -395,7 +398,7 @@ def replay(chk, payload):
     lay = payload["failure"]["input"]
     if not isinstance(lay, dict) or not all(k in lay for k in ("breaks", "nbins", "method", "ifmr", "form")) or "counts_as" in lay or "m" in lay:
         return run(chk)          # lookup / truncation / packing clauses: the whole run is re-created (same seed and tier)
-    lay = {k: lay[k] for k in ("breaks", "nbins", "method", "ifmr", "form", "imf_comps") if k in lay}
+    lay = {k: lay[k] for k in ("breaks", "nbins", "method", "ifmr", "form", "imf_comps", "ns_mass") if k in lay}
     lay["ifmr"] = tuple(lay["ifmr"])
     try:
         mbins, ifm = build(lay)
